@@ -126,6 +126,57 @@ async def c14():
                     f = v[0]
                     if (f.username, f.ticket, f.query) != ('asker', 77, 'query'):
                         return True, f'{kind} carrier: forwarded request differs: {f}', {'carrier': kind}
+        # through the real event bus (both managers listen): a mixed-case, double-spaced query reaches the children verbatim,
+        # and the asker gets one reply / one SearchRequestReceivedEvent per request
+        from aioslsk.events import MessageReceivedEvent, SearchRequestReceivedEvent
+        from aioslsk.shares.model import SharedDirectory, SharedItem
+        for kind in ('server', 'distributed', 'legacy'):
+            for matches in (True, False):
+                client, dn, log, server, peers = setup(tmp, n_children=2, parent=True)
+                sd = SharedDirectory('music', os.path.join(tmp, 'music'), 'alias')
+                item = SharedItem(sd, '', 'Great  Song.mp3', 0.0)
+                os.makedirs(sd.absolute_path, exist_ok=True)
+                with open(item.get_absolute_path(), 'wb') as fh:
+                    fh.write(b'x' * 10)
+                queries = []
+
+                def query(q, username=None, excluded_search_phrases=None, _m=matches, _i=item, _q=queries):
+                    _q.append(q)
+                    return ([_i] if _m else []), []
+                client.searches._shares_manager.query = query
+                replies, events = [], []
+
+                async def send_peer(username, *msgs, _r=replies):
+                    _r.extend((username, m) for m in msgs)
+                client.network.send_peer_messages = send_peer
+
+                def on_received(e, _e=events):      # the bus keeps weak references: hold the listener in a local
+                    _e.append(e)
+                client.events.register(SearchRequestReceivedEvent, on_received)
+                q = 'Great  Song'
+                if kind == 'server':
+                    m, src = M.ServerSearchRequest.Response(3, 0, 'asker', 78, q), client.network.server_connection
+                elif kind == 'distributed':
+                    m, src = M.DistributedSearchRequest.Request(0, 'asker', 78, q), peers['parent'].connection
+                else:
+                    m, src = M.DistributedServerSearchRequest.Request(3, 0, 'asker', 78, q), peers['parent'].connection
+                await client.events.emit(MessageReceivedEvent(m, src))
+                for _ in range(5):
+                    await asyncio.sleep(0)
+                inp = {'carrier': kind, 'via': 'event bus', 'matches': matches}
+                got = {k: v for k, v in log.items() if k != 'disconnected'}
+                if sorted(got) != ['child0', 'child1'] or any(len(v) != 1 for v in got.values()):
+                    return True, f'{kind} carrier over the event bus: forwarded to {[(k, len(v)) for k, v in got.items()]} instead of once to each child', inp
+                for v in got.values():
+                    f = v[0]
+                    if (f.username, f.ticket, f.query) != ('asker', 78, q):
+                        return True, f'{kind} carrier over the event bus: the forwarded request differs from the received one ({q!r}): {f}', inp
+                rep = [(u, r.username, r.ticket, len(r.results)) for u, r in replies if isinstance(r, M.PeerSearchReply.Request)]
+                want = [('asker', 'me', 78, 1)] if matches else []
+                if rep != want:
+                    return True, f'{kind} carrier over the event bus: search replies (to, from, ticket, files) = {rep}, expected {want}', inp
+                if len(events) != 1 or len(queries) != 1:
+                    return True, f'{kind} carrier over the event bus: one request was answered {len(queries)} times ({len(events)} SearchRequestReceivedEvents)', inp
         # answering own searches
         client, dn, log, server, peers = setup(tmp, n_children=0, parent=True)
         calls = []
